@@ -22,6 +22,33 @@ theorem attr_roundtrip (mode : Nat) (h : mode < 4096) :
   have e : mode / 256 * 256 + mode % 256 = mode := by omega
   rwa [e] at this
 
+theorem attr_fits_split : ∀ hi, hi < 16 → ∀ lo, lo < 256 →
+    encodeAttr .file (hi * 256 + lo) < 2 ^ 32 ∧ encodeAttr .dir (hi * 256 + lo) < 2 ^ 32 ∧
+    encodeAttr .symlink (hi * 256 + lo) < 2 ^ 32 := by
+  decide +kernel
+
+/-- the attribute word written for any kind and any mode 0..0o7777 fits the format's UINT32
+    attribute field — the hypothesis under which `C17.attrs_vector_roundtrip` stores it
+    exactly, so kind and mode survive the header as well as the word -/
+theorem attr_fits_u32 (k : Kind) (mode : Nat) (h : mode < 4096) : encodeAttr k mode < 2 ^ 32 := by
+  have := attr_fits_split (mode / 256) (by omega) (mode % 256) (by omega)
+  have e : mode / 256 * 256 + mode % 256 = mode := by omega
+  rw [e] at this
+  cases k
+  · exact this.1
+  · exact this.2.1
+  · exact this.2.2
+
+/-- different kinds or different permission bits never share an attribute word -/
+theorem attr_injective (k k' : Kind) (m m' : Nat) (h : m < 4096) (h' : m' < 4096)
+    (e : encodeAttr k m = encodeAttr k' m') : k = k' ∧ m = m' := by
+  have r := attr_roundtrip m h
+  have r' := attr_roundtrip m' h'
+  have d := congrArg decodeAttr e
+  cases k <;> cases k' <;>
+    simp only [r.1, r.2.1, r.2.2, r'.1, r'.2.1, r'.2.2, Prod.mk.injEq, Option.some.injEq, reduceCtorEq,
+      false_and, true_and] at d <;> first | exact ⟨rfl, d⟩ | exact absurd d id
+
 /-- Timestamp envelope.  `from_datetime` computes `int((t + A) · 10^7)` and `totimestamp`
     `n / 10^7 − A` in binary64 (A = 11644473600; the bound holds for any A).  For 0 ≤ t ≤ 4102444800 (year 2100) the
     operands stay below 2^34 resp. 2^58, so round-to-nearest errs by at most 2^-20 s on the
